@@ -27,8 +27,10 @@ PROP = "C09"
 RULE = ("case = (symmetry [7], local space: named operator class or random generic charge set with fermionic flags, "
         "N, random Hermitian Hterm Hamiltonian with 1-3 body terms of any range and complex amplitudes given as single "
         "MPO / scaled MPO / list or tuple of MPOs / MPO sum, admissible charge, initial state: harness-built "
-        "(full / fractional / D=1 manifold) or random_mps(D_total), canonical or not, real or complex, method 1site / "
-        "2site / yastn.Method switching, opts_eigs variant, opts_svd binding or not, precompute, convergence tolerances, "
+        "(full / fractional / D=1 manifold) or random_mps(D_total), canonical (possibly with factor != 1) or not, real or "
+        "complex, method 1site / 2site / yastn.Method switching, opts_eigs variant (None, explicit which='SR', or dictionaries "
+        "that leave which / hermitian / ncv to the defaults of yastn.eigs, incl. {}), optional shift H + c*1 with c above the "
+        "spectral radius (all levels positive), opts_svd binding or not, precompute, convergence tolerances, "
         "1-6 sweeps; optional convergence stage and penalised stage); distinct = hash of those structural choices; "
         "non-trivial = sector dimension >= 2 and at least one sweep monitored")
 ASSUMPTIONS = ["numpy.linalg.eigvalsh / dense matrix-vector products on <= 4096-dimensional sectors are the truth",
@@ -58,7 +60,11 @@ def floors(tier):
          "precompute:False": 5 * k, "energy_checks": 60 * k, "variational_checks": 60 * k, "monotone_judged": 40 * k,
          "canonical_checks": 60 * k, "sector_checks": 60 * k, "H:list": 5 * k, "H:single": 5 * k,
          "start:random_mps": 5 * k, "start:noncanonical": 5 * k, "method_switches": 2 * k,
-         "truncation_binding_sweeps": 2 * k, "fermionic_cases": 10 * k}
+         "truncation_binding_sweeps": 2 * k, "fermionic_cases": 10 * k,
+         "runs_opts_eigs_without_which_on_positive_spectrum": 10 * k, "opts_eigs:without-which": 20 * k,
+         "opts_eigs:with-which": 20 * k, "opts_eigs:None": 10 * k, "H_shifted_by_positive_constant": 15 * k,
+         "penalised_runs_opts_eigs_without_which": (5 if tier == "thorough" else 1),
+         "converge_runs_without_which_on_positive_spectrum": (5 if tier == "thorough" else 1)}
     if tier == "thorough":
         f.update({"converged_premise_met": 5, "penalised_premise_met": 5, "penalised_runs": 5})
     else:
@@ -100,17 +106,47 @@ def initial_state(cs, n, counts, kind=None):
     canon = rng.random() < 0.4
     if canon:
         psi.canonize_(to="first")
+        if rng.random() < 0.25:
+            psi = rng.choice((2.0, 0.5, -1.5)) * psi        # canonical tensors, psi.factor != 1: dmrg_ must still normalise
+            desc["scaled"] = True
     desc["canonical"] = canon
     return psi, desc
 
 
+# opts_eigs is handed to yastn.eigs as **kwargs: every key is optional there (signature defaults which='SR', ncv=10,
+# hermitian=False, tol=1e-13), so dictionaries that leave 'which' / 'hermitian' / 'ncv' out -- or are empty -- are valid
+# and must still minimise the energy.
 OPTS_EIGS = (None, None,
              {"hermitian": True, "ncv": 2, "which": "SR"},
              {"hermitian": True, "ncv": 4, "which": "SR"},
              {"hermitian": True, "ncv": 6, "which": "SR"},
              {"hermitian": True, "ncv": 12, "which": "SR"},
              {"hermitian": False, "ncv": 3, "which": "SR"},
-             {"hermitian": False, "ncv": 5, "which": "SR"})
+             {"hermitian": False, "ncv": 5, "which": "SR"},
+             {"which": "SR"},
+             {"hermitian": True, "ncv": 4},
+             {"hermitian": True, "ncv": 3},
+             {"hermitian": True},
+             {"ncv": 5},
+             {"tol": 1e-10},
+             {"hermitian": False, "ncv": 4},
+             {})
+
+
+def without_which(opts):
+    return opts is not None and "which" not in opts
+
+
+def shifted(rng, H, sp, N, c):
+    """H + c * identity, in a shape that matches the shape of H: an extra (scaled identity) MPO in a list / tuple, or,
+    for a single MPO, either the MPO sum ``H + c * I`` or the list ``[H, c * I]``."""
+    import yastn.tn.mps as mps
+    cI = c * mps.product_mpo(sp.I, N)
+    if isinstance(H, (list, tuple)):
+        return type(H)(list(H) + [cI]), "list"
+    if rng.random() < 0.5:
+        return H + cI, "added"
+    return [H, cI], "list"
 
 
 # ------------------------------------------------------------------ Krylov interposer (API boundary, no source edit)
@@ -419,6 +455,14 @@ def judge_eigenstate(ctx, dn, vs, tag, witness):
 
 # ------------------------------------------------------------------ one case
 
+def stage_opts(rng):
+    """Lanczos with a Krylov space large enough to converge in a few sweeps; 'which' spelled out or left to the default."""
+    o = {"hermitian": True, "ncv": rng.choice((6, 10))}
+    if rng.random() < 0.5:
+        o["which"] = "SR"
+    return o
+
+
 def run_case(ctx, idx):
     import yastn.tn.mps as mps
     cs = draw_case(ctx, idx)
@@ -428,6 +472,16 @@ def run_case(ctx, idx):
     Hd = T.hermitian_dense_or_skip(ctx, H, sp)
     n, dims = T.pick_charge(rng, sp, N)
     dn = Dense(ctx, Hd, sp, N, n)
+    # The lowest level must be targeted wherever the spectrum sits: some Hamiltonians are shifted by +c*identity with c above
+    # the spectral radius of the sector (every level positive, the top of the spectrum largest in magnitude) -- mostly when
+    # opts_eigs leaves the choice of the targeted Ritz value ('which') to the default of yastn.eigs.
+    opts_eigs = rng.choice(OPTS_EIGS)
+    shift = None
+    if rng.random() < (0.75 if without_which(opts_eigs) else 0.12):
+        shift = round(float(1.5 * dn.scale + rng.uniform(0.5, 1.5)), 3)
+        H, hform = shifted(rng, H, sp, N, shift)
+        Hd = T.hermitian_dense_or_skip(ctx, H, sp)
+        dn = Dense(ctx, Hd, sp, N, n)
     counts = T.block_counts(sp, N, n)
     psi, sdesc = initial_state(cs, n, counts)
 
@@ -448,14 +502,14 @@ def run_case(ctx, idx):
                                {"D_total": max(1, Dfull // 2), "tol": 1e-10}, {"D_total": rng.randint(1, max(1, Dfull))},
                                {"tol": 1e-3}, {"D_total": 4 * Dfull + 4, "D_block": max(1, Dfull // 2)}))
     cfgrun = {"methods": methods, "use_Method": mode.startswith("switch") or rng.random() < 0.2,
-              "precompute": rng.random() < 0.5, "opts_eigs": rng.choice(OPTS_EIGS), "opts_svd": opts_svd,
+              "precompute": rng.random() < 0.5, "opts_eigs": opts_eigs, "opts_svd": opts_svd,
               "energy_tol": rng.choice((None, None, None, 1e-6, 1e-13)),
               "Schmidt_tol": rng.choice((None, None, None, 1e-5, 1e-12))}
-    sig = (sym, sp.family, sp.fermionic, sp.phys.sectors, N, hform, len(cs["groups"]), n, sdesc["kind"], sdesc.get("D_total"),
-           sdesc["dtype"], sdesc["canonical"], tuple(methods), cfgrun["use_Method"], cfgrun["precompute"],
+    sig = (sym, sp.family, sp.fermionic, sp.phys.sectors, N, hform, shift is not None, len(cs["groups"]), n, sdesc["kind"],
+           sdesc.get("D_total"), sdesc["dtype"], sdesc["canonical"], sdesc.get("scaled"), tuple(methods), cfgrun["use_Method"], cfgrun["precompute"],
            repr(cfgrun["opts_eigs"]), repr(opts_svd), cfgrun["energy_tol"], cfgrun["Schmidt_tol"])
-    witness = {"idx": idx, "space": sp.desc(), "N": N, "H_form": hform, "terms": T.terms_desc(cs["groups"]), "charge": list(n),
-               "sector_dim": int(len(dn.idx)), "start": sdesc, "bond_dims_start": T.total_bond_dims(psi),
+    witness = {"idx": idx, "space": sp.desc(), "N": N, "H_form": hform, "terms": T.terms_desc(cs["groups"]), "shift": shift,
+               "charge": list(n), "sector_dim": int(len(dn.idx)), "sector_levels": [float(dn.ev[0]), float(dn.ev[-1])], "start": sdesc, "bond_dims_start": T.total_bond_dims(psi),
                "run": {k: (v if k != "opts_eigs" else repr(v)) for k, v in cfgrun.items()}}
     ctx.count("H:" + ("list" if hform == "list" else "single"))
     ctx.count("Hform:" + hform)
@@ -466,10 +520,18 @@ def run_case(ctx, idx):
         ctx.count("fermionic_cases")
     if np.iscomplexobj(Hd):
         ctx.count("complex_H")
+    positive = bool(dn.ev[0] > 0)
+    if shift is not None:
+        ctx.count("H_shifted_by_positive_constant")
+    if positive:
+        ctx.count("runs_on_positive_spectrum")
+    ctx.count("opts_eigs:" + ("None" if opts_eigs is None else ("without-which" if without_which(opts_eigs) else "with-which")))
+    if without_which(opts_eigs) and positive and len(dn.idx) >= 2:
+        ctx.count("runs_opts_eigs_without_which_on_positive_spectrum")
 
     res = monitored_run(ctx, psi, H, dn, counts, cfgrun, "main", witness)
     nontrivial = len(dn.idx) >= 2 and res["sweeps"] >= 1
-    ctx.case(sig, nontrivial, {k: witness[k] for k in ("space", "N", "H_form", "charge", "sector_dim", "start", "bond_dims_start", "run")})
+    ctx.case(sig, nontrivial, {k: witness[k] for k in ("space", "N", "H_form", "shift", "charge", "sector_dim", "sector_levels", "start", "bond_dims_start", "run")})
     if res["sweeps"] < len(methods):
         ctx.count("stopped_early_by_tolerance")
 
@@ -481,8 +543,10 @@ def run_case(ctx, idx):
     psi_c = T.make_mps(rng, cs["nprng"], sp, N, n, mode="full", dtype=rng.choice(("float64", "complex128")), counts=counts)
     m2 = rng.choice(("1site", "2site"))
     cfg2 = {"methods": [m2] * 30, "use_Method": False, "precompute": rng.random() < 0.5,
-            "opts_eigs": {"hermitian": True, "ncv": rng.choice((6, 10)), "which": "SR"},
+            "opts_eigs": stage_opts(rng),
             "opts_svd": {"D_total": 100000} if m2 == "2site" else None}
+    if without_which(cfg2["opts_eigs"]) and positive:
+        ctx.count("converge_runs_without_which_on_positive_spectrum")
     w2 = dict(witness, stage="converge", run2={k: repr(v) for k, v in cfg2.items()})
     r2 = monitored_run(ctx, psi_c, H, dn, counts, cfg2, "converge", w2, stop_when_converged=True)
     # premise: converged, and either the bond structure contains a site whose two sides are both complete (its local
@@ -522,8 +586,10 @@ def run_case(ctx, idx):
     psi_p = T.make_mps(rng, cs["nprng"], sp, N, n, mode="full", dtype=rng.choice(("float64", "complex128")), counts=counts)
     m3 = rng.choice(("1site", "2site"))
     cfg3 = {"methods": [m3] * 40, "use_Method": False, "precompute": rng.random() < 0.5,
-            "opts_eigs": {"hermitian": True, "ncv": rng.choice((6, 10)), "which": "SR"},
+            "opts_eigs": stage_opts(rng),
             "opts_svd": {"D_total": 100000} if m3 == "2site" else None, "project": project}
+    if without_which(cfg3["opts_eigs"]):
+        ctx.count("penalised_runs_opts_eigs_without_which")      # the penalty itself puts a large positive level on top
     w3 = dict(witness, stage="penalised", penalty=penalty, default_penalty=default_pen, run3={k: repr(v) for k, v in cfg3.items() if k != "project"})
     r3 = monitored_run(ctx, psi_p, H, dn, counts, cfg3, "penalised", w3, stop_when_converged=True)
     if not (r3["converged"] and (T.exactness_premise(psi_p, counts) or
